@@ -48,11 +48,13 @@ func (o op) line() string {
 	switch o.kind {
 	case "write":
 		return "write " + strconv.Itoa(o.k)
-	case "ans":
+	case "ans", "pop":
 		if o.ak == 'n' {
-			return fmt.Sprintf("ans %d n", o.r)
+			return fmt.Sprintf("%s %d n", o.kind, o.r)
 		}
-		return fmt.Sprintf("ans %d %c %d", o.r, o.ak, o.k)
+		return fmt.Sprintf("%s %d %c %d", o.kind, o.r, o.ak, o.k)
+	case "deliver":
+		return fmt.Sprintf("deliver %d %d", o.r, o.k)
 	case "closew":
 		return "closew"
 	}
@@ -80,16 +82,20 @@ func parseOp(line string) (op, bool) {
 		return op{kind: "write", k: v}, ok && len(f) == 2
 	case "closew":
 		return op{kind: "closew"}, len(f) == 1
-	case "ans":
+	case "deliver":
+		r, ok := num(1)
+		k, ok2 := num(2)
+		return op{kind: "deliver", r: r, k: k}, ok && ok2 && len(f) == 3 && r < maxReaders
+	case "ans", "pop":
 		r, ok := num(1)
 		if !ok || r >= maxReaders || len(f) < 3 {
 			return op{}, false
 		}
 		if f[2] == "n" {
-			return op{kind: "ans", r: r, ak: 'n'}, len(f) == 3
+			return op{kind: f[0], r: r, ak: 'n'}, len(f) == 3
 		}
 		k, ok := num(3)
-		return op{kind: "ans", r: r, ak: f[2][0], k: k}, ok && len(f) == 4 && (f[2] == "e" || f[2] == "v")
+		return op{kind: f[0], r: r, ak: f[2][0], k: k}, ok && len(f) == 4 && (f[2] == "e" || f[2] == "v")
 	}
 	return op{}, false
 }
@@ -162,6 +168,7 @@ func canon(p *packet.Packet) string {
 type parkedG struct {
 	rid     int
 	link    uint64 // generation of the link the dropped request was written over
+	write   uint64 // number of the write the dropped request belongs to
 	release chan struct{}
 	done    chan string
 }
@@ -175,6 +182,11 @@ type sim struct {
 	parkCh   chan *parkedG
 	parked   [][]*parkedG
 
+	// answers in flight: Reader.Receive has popped the request and released r.mu, its call of
+	// (*Writer).receive is held at the yield hook (one goroutine per `pop` step)
+	launching atomic.Pointer[popG]
+	flight    [][]*popG
+
 	mu     sync.Mutex
 	emits  []*packet.Packet // pushed into the pump during the current step (inbound hook)
 	delivP []*packet.Packet
@@ -187,17 +199,36 @@ type sim struct {
 	timedOut   bool
 }
 
+// popG is one `Reader.Receive` call split at the yield hook.
+type popG struct {
+	rid     int
+	pck     *packet.Packet
+	parked  chan struct{}
+	release chan struct{}
+	ret     chan string
+}
+
 var cur atomic.Pointer[sim]
 var hookOnce sync.Once
 
 const wait = 3 * time.Second
 
-func yieldHook(w *packet.Writer, r *packet.Reader, _ *packet.Packet, link uint64) func() {
+func yieldHook(w *packet.Writer, r *packet.Reader, pck *packet.Packet, link uint64, write uint64) func() {
 	s := cur.Load()
-	if s == nil || s.w != w || s.mainBusy.Load() || s.draining.Load() {
+	if s == nil || s.w != w {
 		return nil
 	}
-	g := &parkedG{rid: s.ridOf[r], link: link, release: make(chan struct{}), done: make(chan string, 1)}
+	if pg := s.launching.Load(); pg != nil && pg.pck == pck && s.ridOf[r] == pg.rid {
+		// the answer of a `pop` step: hold it between r.mu.Unlock() and w.mu.Lock()
+		s.launching.Store(nil)
+		pg.parked <- struct{}{}
+		<-pg.release
+		return nil
+	}
+	if s.mainBusy.Load() || s.draining.Load() {
+		return nil
+	}
+	g := &parkedG{rid: s.ridOf[r], link: link, write: write, release: make(chan struct{}), done: make(chan string, 1)}
 	s.parkCh <- g
 	<-g.release
 	return func() {
@@ -210,8 +241,8 @@ func yieldHook(w *packet.Writer, r *packet.Reader, _ *packet.Packet, link uint64
 }
 
 func newSim(n int) *sim {
-	hookOnce.Do(func() { packet.VerifReceiveLink = yieldHook })
-	s := &sim{w: packet.NewWriter(), ridOf: map[*packet.Reader]int{}, parkCh: make(chan *parkedG, 4096), parked: make([][]*parkedG, n)}
+	hookOnce.Do(func() { packet.VerifReceiveWrite = yieldHook })
+	s := &sim{w: packet.NewWriter(), ridOf: map[*packet.Reader]int{}, parkCh: make(chan *parkedG, 4096), parked: make([][]*parkedG, n), flight: make([][]*popG, n)}
 	s.w.AddInboundHook(packet.HookFunc(func(p *packet.Packet) {
 		s.mu.Lock()
 		s.emits = append(s.emits, p)
@@ -241,6 +272,11 @@ func newSim(n int) *sim {
 // teardown lets every held goroutine and pump finish.
 func (s *sim) teardown() {
 	s.draining.Store(true)
+	for _, fs := range s.flight {
+		for _, pg := range fs {
+			close(pg.release)
+		}
+	}
 	for _, gs := range s.parked {
 		for _, g := range gs {
 			close(g.release)
@@ -295,6 +331,46 @@ func (s *sim) exec(o op) (out string, emitted []string, panicked bool) {
 			s.mainBusy.Store(true)
 			defer s.mainBusy.Store(false)
 			ret = tf(s.rs[o.r].Receive(mkAns(o)))
+		case "pop":
+			pg := &popG{rid: o.r, pck: mkAns(o), parked: make(chan struct{}, 1), release: make(chan struct{}), ret: make(chan string, 1)}
+			s.launching.Store(pg)
+			go func() {
+				defer func() {
+					if p := recover(); p != nil {
+						pg.ret <- "panic"
+					}
+				}()
+				pg.ret <- tf(s.rs[pg.rid].Receive(pg.pck))
+			}()
+			select {
+			case <-pg.parked:
+				s.flight[o.r] = append(s.flight[o.r], pg)
+				ret = "t"
+			case v := <-pg.ret:
+				ret = v // nothing queued: Receive returned without reaching the writer
+			case <-time.After(wait):
+				s.timedOut = true
+				s.fail("pop %d: Reader.Receive neither returned nor reached (*Writer).receive", o.r)
+			}
+			s.launching.Store(nil)
+		case "deliver":
+			if o.k >= len(s.flight[o.r]) {
+				ret = "skip"
+				return
+			}
+			pg := s.flight[o.r][o.k]
+			s.flight[o.r] = append(append([]*popG{}, s.flight[o.r][:o.k]...), s.flight[o.r][o.k+1:]...)
+			close(pg.release)
+			select {
+			case v := <-pg.ret:
+				if v == "panic" {
+					panic("(*Writer).receive panicked")
+				}
+				ret = v
+			case <-time.After(wait):
+				s.timedOut = true
+				s.fail("deliver %d %d: the released Reader.Receive did not return", o.r, o.k)
+			}
 		case "closer":
 			s.rs[o.r].Close()
 			s.mu.Lock()
@@ -304,11 +380,10 @@ func (s *sim) exec(o op) (out string, emitted []string, panicked bool) {
 			for i := 0; i < n; i++ {
 				select {
 				case g := <-s.parkCh:
-					// keep the held-back notices of a reader in the order of its requests: the
-					// generations are non-decreasing along the reader's queue and notices of
-					// one generation are identical, so sorting by generation restores it
+					// keep the held-back notices of a reader in the order of its requests: the write
+					// numbers increase along the reader's queue, so sorting by them restores it
 					ps := append(s.parked[g.rid], g)
-					sort.SliceStable(ps, func(i, j int) bool { return ps[i].link < ps[j].link })
+					sort.SliceStable(ps, func(i, j int) bool { return ps[i].write < ps[j].write })
 					s.parked[g.rid] = ps
 				case <-time.After(wait):
 					s.timedOut = true
@@ -405,10 +480,16 @@ type refRow struct {
 	refused map[int]bool   // readers that were linked but did not accept the write (already closed)
 }
 
+type refMsg struct {
+	w int
+	a string
+}
+
 type ref struct {
 	linked  []int
 	closed  [maxReaders]bool
-	owed    [maxReaders][]int // write ids reader r accepted and has not answered (or, closed: drop notices in flight)
+	owed    [maxReaders][]int    // write ids reader r accepted and has not answered (or, closed: drop notices in flight)
+	flight  [maxReaders][]refMsg // answers on their way to the writer: which write they answer, and with what
 	rows    []*refRow
 	done    bool
 	nextW   int
@@ -568,6 +649,22 @@ func (x *ref) apply(o op) (expectRet string, expect []string) {
 		e := x.arrive(w, o.r, ansCanon(o))
 		_ = before
 		return "", e // whether the answer still counted is not part of the statement
+	case "pop":
+		if x.closed[o.r] || len(x.owed[o.r]) == 0 {
+			return "f", nil
+		}
+		w := x.owed[o.r][0]
+		x.owed[o.r] = x.owed[o.r][1:]
+		x.flight[o.r] = append(x.flight[o.r], refMsg{w, ansCanon(o)})
+		return "t", nil
+	case "deliver":
+		if o.k >= len(x.flight[o.r]) {
+			return "skip", nil
+		}
+		m := x.flight[o.r][o.k]
+		x.flight[o.r] = append(append([]refMsg{}, x.flight[o.r][:o.k]...), x.flight[o.r][o.k+1:]...)
+		// whenever it arrives, the answer belongs to the write whose request was answered
+		return "", x.arrive(m.w, o.r, m.a)
 	case "closer":
 		if x.closed[o.r] {
 			return "n0", nil
@@ -722,6 +819,11 @@ func (g *gen) next(x *ref, s *sim, i int) (op, bool) {
 				return g.ans(r), true
 			}
 		}
+		for r := 0; r < g.n; r++ {
+			if len(s.flight[r]) > 0 {
+				return op{kind: "deliver", r: r, k: g.r.Intn(len(s.flight[r]))}, true
+			}
+		}
 		return op{}, false
 	}
 	if i == 0 || (len(x.linked) == 0 && !x.done && g.r.Chance(2, 3)) {
@@ -731,7 +833,24 @@ func (g *gen) next(x *ref, s *sim, i int) (op, bool) {
 		}
 	}
 	for try := 0; try < 20; try++ {
-		switch g.r.Weighted([]int{3, 2, 6, 2 + 2*(3-g.lagging), 1, 3, 1}) {
+		switch g.r.Weighted([]int{3, 2, 6, 2 + 2*(3-g.lagging), 1, 3, 1, 3, 3}) {
+		case 7:
+			r := g.r.Intn(g.n)
+			if (x.closed[r] || len(x.owed[r]) == 0) && g.r.Chance(5, 6) {
+				continue
+			}
+			o := g.ans(r)
+			o.kind = "pop"
+			return o, true
+		case 8:
+			r := g.r.Intn(g.n)
+			if len(s.flight[r]) == 0 {
+				if g.r.Chance(9, 10) {
+					continue
+				}
+				return op{kind: "deliver", r: r, k: g.r.Intn(2)}, true
+			}
+			return op{kind: "deliver", r: r, k: g.r.Intn(len(s.flight[r]))}, true
 		case 0:
 			r := g.r.Intn(g.n)
 			if g.avoid && !x.isLinked(r) && !x.closed[r] && len(x.owed[r]) > 0 {
@@ -907,6 +1026,36 @@ func Run(c *lib.Ctx) {
 		}
 		rec()
 		c.Extra["exhaustive"] = fmt.Sprintf("all %d histories `link 0 · x` with |x| ≤ %d over 2 readers and the 12-symbol alphabet", count, k)
+
+		// the window inside Reader.Receive: every history `link 0 · x`, |x| ≤ 5, over one reader with the answer
+		// split into pop / deliver (any order of the answers in flight, the drop notices and the other steps)
+		alpha2 := []op{{kind: "write"}, {kind: "pop", r: 0, ak: 'v'}, {kind: "deliver", r: 0, k: 0}, {kind: "deliver", r: 0, k: 1},
+			{kind: "ans", r: 0, ak: 'v'}, {kind: "closer", r: 0}, {kind: "drop", r: 0}, {kind: "unlink", r: 0}, {kind: "link", r: 0}}
+		idx = idx[:0]
+		count2 := 0
+		var rec2 func()
+		rec2 = func() {
+			ops := []op{{kind: "link", r: 0}}
+			for j, a := range idx {
+				o := alpha2[a]
+				if o.kind != "deliver" {
+					o.k = j + 1
+				}
+				ops = append(ops, o)
+			}
+			count2++
+			record(runHistory(1, fixed(ops)), "exhaustive (pop/deliver)")
+			if len(idx) == k {
+				return
+			}
+			for a := range alpha2 {
+				idx = append(idx, a)
+				rec2()
+				idx = idx[:len(idx)-1]
+			}
+		}
+		rec2()
+		c.Extra["exhaustive_window"] = fmt.Sprintf("all %d histories `link 0 · x` with |x| ≤ %d over 1 reader and the 9-symbol alphabet with pop/deliver", count2, k)
 	}
 	c.Extra["close_discards"] = fmt.Sprintf("%d responses pushed by Writer.Close were not delivered by Receive() in %d histories (known finding close-discards-buffered: the pump drops its buffer when `in` closes); %d responses pushed by Close did arrive and were checked", closeLost, closeCases, closeChecked)
 
